@@ -57,7 +57,7 @@ def m_c04(cl):
 
 def m_c07(cl):
     for i, ln in enumerate(cl):
-        if ln.get("reset") or ln["res"]["ok"]:
+        if ln.get("reset") or ln.get("aux") or ln.get("conc") or ln["res"]["ok"]:
             continue
         st = _l1(ln)
         if st and st["accts"]:
@@ -198,7 +198,19 @@ def m_c13(cl):
     return False
 
 
+def m_c19(cl):
+    for ln in cl:
+        if ln.get("reset") or ln.get("aux") or ln.get("conc"):
+            continue
+        for g, st in ln["st"].items():
+            if g != ln["op"]["l"] and st["accts"]:
+                st["accts"][0]["meta"]["leak"] = "1"
+                return True
+    return False
+
+
 CONTROLS = {
+    "C19": ("Step_C19_Frame", m_c19),
     "C01": ("Inv_C01_Conservation", m_c01),
     "C02": ("Inv_C02_VolumesAreFold", m_c02),
     "C03": ("Inv_C03_PostCommitVolumes", m_c03),
